@@ -585,6 +585,12 @@ pub fn run_case(out: &mut Out, header: &str) {
         let mut rng = Rng::new(seed);
         let mut edited = books[0].clone();
         let si = rng.below(edited.get_sheet_count() as u64) as usize;
+        let col_nums = |ws: &Worksheet| -> Vec<u32> {
+            let mut v: Vec<u32> = ws.get_column_dimensions().iter().map(|c| *c.get_col_num()).collect();
+            v.sort();
+            v
+        };
+        let cols_before = col_nums(edited.get_sheet(&si).unwrap());
         let (spec_before, rows_before, target) = {
             let ws = edited.get_sheet(&si).unwrap();
             let (hc, hr) = ws.get_highest_column_and_row();
@@ -643,6 +649,7 @@ pub fn run_case(out: &mut Out, header: &str) {
         }
         let mut rows_after: Vec<u32> = edited.get_sheet(&si).unwrap().get_row_dimensions().iter().map(|r| *r.get_row_num()).collect();
         rows_after.sort();
+        let cols_after = col_nums(edited.get_sheet(&si).unwrap());
         let back = match guard(|| wb::save_bytes(&edited, light)) {
             Ok(Ok(b)) => reload(&b),
             _ => Err("save failed".into()),
@@ -693,7 +700,7 @@ pub fn run_case(out: &mut Out, header: &str) {
                 let line = format!("c04 edit {} {} {}.{}", class, spec_before, c, r);
                 out.begin(&line);
                 out.end(&line, &kept_after, true);
-                if rows_after != rows_before {
+                if rows_after != rows_before || cols_after != (if class == "blank" { col_nums(books[0].get_sheet(&si).unwrap()).into_iter().chain(std::iter::once(c)).collect::<std::collections::BTreeSet<u32>>().into_iter().collect::<Vec<u32>>() } else { cols_before.clone() }) {
                     out.oracle_fail(Fail::new("edit-not-local").with("op", header).with("cell", format!("{} changed the row records", class)));
                 }
             }
@@ -703,9 +710,10 @@ pub fn run_case(out: &mut Out, header: &str) {
                     .filter(|x| !x.get_cell_value().is_empty() || style_is_empty(x.get_style()))
                     .filter(|x| (*x.get_coordinate().get_row_num(), *x.get_coordinate().get_col_num()) < (r, c))
                     .count();
-                let line = format!("c04 edit create {} {}.{} {} {}", spec_before, c, r, n, join(&rows_before));
+                let line = format!("c04 edit create {} {}.{} {} {} {}", spec_before, c, r, n, join(&rows_before), join(&cols_before));
                 out.begin(&line);
-                out.end(&line, &format!("{} {}", kept_after, join(&rows_after)), true);
+                out.end(&line, &format!("{} {} {}", kept_after, join(&rows_after), join(&cols_after)), true);
+                out.count(if cols_before.contains(&c) { "edit.create.col-record-existed" } else { "edit.create.col-record-made" });
                 // the record of the new cell's row is read back, with default attributes
                 match nb.get_sheet(&si).unwrap().get_row_dimension(&r) {
                     Some(rd) if rows_before.contains(&r) || (!*rd.get_hidden() && !*rd.get_custom_height()) => out.oracle_ok(),
